@@ -91,10 +91,13 @@ struct CountingAlloc {
     template<class U, class... Args>
     void construct(U* p, Args&&... args)
     {
-        ++g_construct_calls;
         ARec* r = arec_find(p);
         if (!r || !r->allocated || r->constructed) fail("bad-construct", "construct on storage that is not fresh");
+        // the element's constructor throws (fault enumeration, C13); constructors declared noexcept cannot
+        if constexpr (!std::is_nothrow_constructible<U, Args...>::value)
+            if (g_faults_armed) mcrt::may_throw(hx::SITE_CTOR);
         ::new ((void*)p) U(std::forward<Args>(args)...);
+        ++g_construct_calls;  // (a constructor that threw has not constructed anything)
         r->constructed = 1;
     }
     template<class U>
@@ -785,7 +788,7 @@ void make_items(const Options& o, std::vector<Item>& items)
 #if defined(MODE_C13)
         // every allocation made by a client operation may fail (one failure per run; thorough: two)
         it.enumerate_faults = true;
-        it.fault_mask = 1u << hx::SITE_ALLOC;
+        it.fault_mask = (1u << hx::SITE_ALLOC) | (1u << hx::SITE_CTOR);
 #endif
         items.push_back(it);
     };
